@@ -909,3 +909,725 @@ Proof.
         -- intro x. pose proof (occ_list_set_field x fields f e' e Ef).
            specialize (OC x). revert H OC. occ_tac.
 Qed.
+
+(* ------------------------------------------------------------------ reading: index / slice *)
+Lemma get_clone_drop h v e te R F :
+  Inv h ((handles v ++ R) ++ F) -> incl (handles e) (handles v ++ handles_heap h) -> repr h e te ->
+  let h' := drop_val (clone_val h e) v in
+  repr h' e te /\ Step h (handles v ++ R) F h' (handles e ++ R) /\
+  (forall w t, incl (handles w) (R ++ F) -> repr h w t -> repr h' w t).
+Proof.
+  intros I Ie He h'.
+  destruct (clone_val_step h (handles v ++ R) F e I) as [S1 [B1 L1]].
+  { intros x Hx. apply Ie in Hx. revert Hx. in_tac. }
+  set (h1 := clone_val h e) in *.
+  assert (I1 : Inv h1 ((handles v ++ handles e ++ R) ++ F)).
+  { eapply Inv_equiv; [|apply S1]. occ_tac. }
+  destruct (drop_val_keep h1 v (handles e ++ R) F I1) as [S2 K2].
+  split; [|split].
+  - apply K2. apply incl_appl, incl_appl, incl_refl. eapply repr_ext; eauto.
+  - eapply Step_trans; [|exact S2]. eapply Step_equiv; [| |exact S1]. intro; tauto. occ_tac.
+  - intros w t Iw Hw. apply K2. { intros x Hx. apply Iw in Hx. revert Hx. in_tac. } eapply repr_ext; eauto.
+Qed.
+
+Lemma alloc_repr h k its ts h' l' :
+  alloc h k its = (h', l') -> repr_items h its ts -> repr h' (HRef l' None) (VSeq k ts None).
+Proof.
+  intros EA Hits. assert (Eh : h' = fst (alloc h k its)) by (rewrite EA; auto).
+  assert (El : l' = length (cells h)) by (unfold alloc in EA; inversion EA; auto).
+  change k with (ckind (mkcell 1 k its)). apply R_ref.
+  - rewrite Eh, El. apply get_cell_alloc_new.
+  - simpl. eapply repr_items_ext; [|exact Hits]. intro. rewrite Eh. apply same_body_alloc.
+  - constructor.
+Qed.
+
+Lemma alloc_step' h R F k its h' l' :
+  alloc h k its = (h', l') -> Inv h ((handles_items its ++ R) ++ F) ->
+  Step h (handles_items its ++ R) F h' (l' :: R) /\ (forall m, same_body h h' m).
+Proof.
+  intros EA I. pose proof (alloc_step h R F k its I) as S. rewrite EA in S. simpl in S.
+  split; auto. intro. assert (Eh : h' = fst (alloc h k its)) by (rewrite EA; auto). rewrite Eh. apply same_body_alloc.
+Qed.
+
+Lemma repr_items_firstn h es ts n : repr_items h es ts -> repr_items h (firstn n es) (firstn n ts).
+Proof. intro H. revert n. induction H; destruct n; simpl; constructor; auto. Qed.
+Lemma repr_items_skipn h es ts n : repr_items h es ts -> repr_items h (skipn n es) (skipn n ts).
+Proof. intro H. revert n. induction H; destruct n; simpl; auto; constructor; auto. Qed.
+Lemma repr_items_sub h es ts a b : repr_items h es ts -> repr_items h (sub_items es a b) (sub_items ts a b).
+Proof. intro. unfold sub_items. apply repr_items_firstn. apply repr_items_skipn. auto. Qed.
+
+Lemma handles_items_firstn its n : incl (handles_items (firstn n its)) (handles_items its).
+Proof.
+  unfold handles_items. revert n. induction its as [|[k y] its IH]; destruct n; simpl; try apply incl_nil_l.
+  apply incl_app; [apply incl_appl, incl_refl | apply incl_appr; auto].
+Qed.
+Lemma handles_items_skipn its n : incl (handles_items (skipn n its)) (handles_items its).
+Proof.
+  unfold handles_items. revert n. induction its as [|[k y] its IH]; destruct n; simpl; try apply incl_refl.
+  apply incl_appr; auto.
+Qed.
+Lemma handles_items_sub its a b : incl (handles_items (sub_items its a b)) (handles_items its).
+Proof. unfold sub_items. eapply incl_tran; [apply handles_items_firstn | apply handles_items_skipn]. Qed.
+
+Lemma get_alloc_drop h v k its' ts' R F h2 l' :
+  Inv h ((handles v ++ R) ++ F) -> incl (handles_items its') (handles v ++ handles_heap h) ->
+  repr_items h its' ts' ->
+  alloc (clone_locs h (handles_items its')) k its' = (h2, l') ->
+  let h' := drop_val h2 v in
+  repr h' (HRef l' None) (VSeq k ts' None) /\ Step h (handles v ++ R) F h' (handles (HRef l' None) ++ R) /\
+  (forall w t, incl (handles w) (R ++ F) -> repr h w t -> repr h' w t).
+Proof.
+  intros I Ii Hits EA h'.
+  destruct (clone_locs_step (handles_items its') h (handles v ++ R) F I) as [S1 [B1 L1]].
+  { intros x Hx. apply Ii in Hx. revert Hx. in_tac. }
+  set (h1 := clone_locs h (handles_items its')) in *.
+  assert (I1 : Inv h1 ((handles_items its' ++ handles v ++ R) ++ F)) by apply S1.
+  destruct (alloc_step' h1 (handles v ++ R) F k its' h2 l' EA I1) as [S2 B2].
+  assert (Hr2 : repr h2 (HRef l' None) (VSeq k ts' None)).
+  { eapply alloc_repr; eauto. eapply repr_items_ext; eauto. }
+  assert (I2 : Inv h2 ((handles v ++ l' :: R) ++ F)).
+  { eapply Inv_equiv; [|apply S2]. occ_tac. }
+  destruct (drop_val_keep h2 v (l' :: R) F I2) as [S3 K3].
+  rewrite handles_ref. simpl.
+  split; [|split].
+  - apply K3; auto. rewrite handles_ref. simpl. intros x Hx. simpl in Hx. destruct Hx; [left; auto|contradiction].
+  - eapply Step_trans; [exact S1|]. eapply Step_trans; [exact S2|].
+    eapply Step_equiv; [| |exact S3]. apply in_occ_equiv; occ_tac. occ_tac.
+  - intros w t Iw Hw. apply K3. { intros x Hx. apply Iw in Hx. revert Hx. simpl. in_tac. }
+    eapply repr_ext; [exact B2|]. eapply repr_ext; eauto.
+Qed.
+
+Definition get1_post (h : heap) (v : hval) (R F : list loc) (tt : val) (pe : pelem) (h' : heap) (r : option hval) : Prop :=
+  match r with
+  | Some e => exists te, v_get1 tt pe = Some te /\ repr h' e te /\ Step h (handles v ++ R) F h' (handles e ++ R)
+  | None => v_get1 tt pe = None /\ Step h (handles v ++ R) F h' R
+  end /\ (forall w t, incl (handles w) (R ++ F) -> repr h w t -> repr h' w t).
+
+Lemma m_get1_ok h v t pe R F h' r :
+  Inv h ((handles v ++ R) ++ F) -> repr h v t -> m_get1 h v pe = (h', r) -> get1_post h v R F t pe h' r.
+Proof.
+  intros I Hr E. unfold get1_post.
+  assert (FAIL : forall tt, (h', r) = (drop_val h v, None) -> v_get1 tt pe = None -> get1_post h v R F tt pe h' r).
+  { intros tt E1 E2. inversion E1; subst. destruct (drop_val_keep h v R F I). split; auto. }
+  assert (OKC : forall tt e te, (h', r) = (drop_val (clone_val h e) v, Some e) ->
+                 incl (handles e) (handles v ++ handles_heap h) -> repr h e te -> v_get1 tt pe = Some te ->
+                 get1_post h v R F tt pe h' r).
+  { intros tt e te E1 Ie He E2. inversion E1; subst.
+    destruct (get_clone_drop h v e te R F I Ie He) as [A [B C]]. split; eauto. }
+  fold (get1_post h v R F t pe h' r).
+  destruct v as [| z | l d | sid fs].
+  - simpl in E. inversion E; subst. inversion Hr; subst. split; auto. simpl. split; auto.
+    rewrite handles_null. simpl. apply Step_refl. rewrite handles_null in I. auto.
+  - simpl in E. inversion E; subst. inversion Hr; subst. split; auto. simpl. split; auto.
+    rewrite handles_int. simpl. apply Step_refl. rewrite handles_int in I. auto.
+  - destruct (repr_ref_inv_gen _ _ _ _ Hr) as [c [its [dv [Ht [Hc [Hits Hd]]]]]]. subst t.
+    pose proof (repr_items_length _ _ _ Hits) as Hlen.
+    simpl in E. rewrite Hc in E.
+    assert (ITEM : forall n e, nth_item n (citems c) = Some e -> incl (handles e) (handles (HRef l d) ++ handles_heap h)).
+    { intros n e Hn. apply incl_appr. intros x Hx. eapply In_handles_heap; eauto. eapply handles_items_nth; eauto. }
+    assert (SEQ : forall k, ckind c = k -> k <> KDict ->
+      match pe with
+      | PI z =>
+        match norm_index (length (citems c)) z with
+        | Some n =>
+          match nth_item n (citems c) with
+          | Some e =>
+            match k with
+            | KStr => let '(h1, l') := alloc (clone_val h e) KStr [(nokey, e)] in (drop_val h1 (HRef l d), Some (HRef l' None))
+            | _ => (drop_val (clone_val h e) (HRef l d), Some e)
+            end
+          | None => (drop_val h (HRef l d), None)
+          end
+        | None => (drop_val h (HRef l d), None)
+        end
+      | PSl lo hi =>
+        let '(a, b) := slice_bounds (length (citems c)) lo hi in
+        let its := sub_items (citems c) a b in
+        let h1 := clone_locs h (handles_items its) in
+        let '(h2, l') := alloc h1 k its in
+        (drop_val h2 (HRef l d), Some (HRef l' None))
+      | _ => (drop_val h (HRef l d), None)
+      end = (h', r) -> get1_post h (HRef l d) R F (VSeq k its dv) pe h' r).
+    { intros k _ NK E1.
+      assert (VG : v_get1 (VSeq k its dv) pe =
+                   match pe with
+                   | PI z => match norm_index (length its) z with
+                             | Some n => match nth_item n its with
+                                         | Some e => Some (match k with KStr => VSeq KStr [(nokey, e)] None | _ => e end)
+                                         | None => None
+                                         end
+                             | None => None
+                             end
+                   | PSl lo hi => let (a, b) := slice_bounds (length its) lo hi in Some (VSeq k (sub_items its a b) None)
+                   | _ => None
+                   end).
+      { destruct k; try congruence; reflexivity. }
+      destruct pe as [z | bs | sid' f | lo hi].
+      - rewrite <- Hlen in VG. destruct (norm_index (length (citems c)) z) as [n|] eqn:NI.
+        2: { apply FAIL; auto. }
+        destruct (nth_item n (citems c)) as [e|] eqn:Ne.
+        2: { apply FAIL; auto. rewrite VG. rewrite (repr_items_nth_none _ _ _ _ Hits Ne). reflexivity. }
+        destruct (repr_items_nth _ _ _ _ _ Hits Ne) as [te [Hte Hre]]. rewrite Hte in VG.
+        destruct (kind_eqb k KStr) eqn:KS.
+        + assert (k = KStr) by (destruct k; simpl in KS; congruence). subst k.
+          destruct (alloc (clone_val h e) KStr [(nokey, e)]) as [h1 l'] eqn:EA. inversion E1; subst; clear E1.
+          assert (EA' : alloc (clone_locs h (handles_items [(nokey, e)])) KStr [(nokey, e)] = (h1, l')).
+          { rewrite handles_items_single. exact EA. }
+          destruct (get_alloc_drop h (HRef l d) KStr [(nokey, e)] [(nokey, te)] R F h1 l' I) as [Hr' [S' K']]; auto.
+          { rewrite handles_items_single. eapply ITEM; eauto. }
+          { constructor; auto. constructor. }
+          unfold get1_post. rewrite VG. eauto.
+        + assert (E2 : (h', r) = (drop_val (clone_val h e) (HRef l d), Some e)).
+          { destruct k; simpl in KS; try discriminate; auto. }
+          eapply OKC; eauto. rewrite VG. destruct k; simpl in KS; try discriminate; auto.
+      - apply FAIL; auto.
+      - apply FAIL; auto.
+      - rewrite <- Hlen in VG. destruct (slice_bounds (length (citems c)) lo hi) as [a b].
+        cbv zeta in E1.
+        destruct (alloc (clone_locs h (handles_items (sub_items (citems c) a b))) k (sub_items (citems c) a b)) as [h2 l'] eqn:EA.
+        inversion E1; subst; clear E1.
+        destruct (get_alloc_drop h (HRef l d) k (sub_items (citems c) a b) (sub_items its a b) R F h2 l' I) as [Hr' [S' K']]; auto.
+        { apply incl_appr. intros x Hx. eapply In_handles_heap; eauto. eapply handles_items_sub; eauto. }
+        { apply repr_items_sub; auto. }
+        unfold get1_post. rewrite VG. eauto. }
+    destruct (ckind c) eqn:K.
+    + apply (SEQ KList); auto. discriminate.
+    + (* dict *)
+      assert (VG : v_get1 (VSeq KDict its dv) pe =
+                   match key_of_pelem pe with
+                   | Some k => match find_key k its with
+                               | Some n => nth_item n its
+                               | None => dv
+                               end
+                   | None => None
+                   end) by reflexivity.
+      destruct (key_of_pelem pe) as [k|] eqn:KP; [|apply FAIL; auto].
+      rewrite <- (repr_items_find_key _ _ _ k Hits) in VG.
+      destruct (find_key k (citems c)) as [n|] eqn:FK.
+      * destruct (nth_item n (citems c)) as [e|] eqn:Ne.
+        -- destruct (repr_items_nth _ _ _ _ _ Hits Ne) as [te [Hte Hre]]. eapply OKC; eauto. rewrite VG. auto.
+        -- apply FAIL; auto. rewrite VG. eapply repr_items_nth_none; eauto.
+      * inversion Hd; subst.
+        -- apply FAIL; auto.
+        -- eapply OKC; eauto. apply incl_appl. rewrite handles_ref. apply incl_tl. apply incl_refl.
+    + apply (SEQ KStr); auto. discriminate.
+    + apply (SEQ KVec); auto. discriminate.
+    + apply (SEQ KBytes); auto. discriminate.
+  - (* instance *)
+    inversion Hr; subst. match goal with H : repr_list _ _ _ |- _ => rename H into Hfs end.
+    simpl in E.
+    destruct pe as [z | bs | sid' f | lo hi]; try (apply FAIL; auto; fail).
+    destruct (Nat.eqb sid sid') eqn:Es; [|apply FAIL; auto; simpl; rewrite Es; auto].
+    destruct (nth_error fs f) as [e|] eqn:Ef.
+    + destruct (repr_list_nth _ _ _ _ _ Hfs Ef) as [te [Hte Hre]].
+      eapply OKC; eauto.
+      * apply incl_appl. rewrite handles_inst. eapply handles_list_nth; eauto.
+      * simpl. rewrite Es. auto.
+    + apply FAIL; auto. simpl. rewrite Es. eapply repr_list_nth_none; eauto.
+Qed.
+
+Lemma m_get_ok p : forall h v t R F h' r,
+  Inv h ((handles v ++ R) ++ F) -> repr h v t -> m_get h v p = (h', r) ->
+  match r with
+  | Some e => exists te, v_get t p = Some te /\ repr h' e te /\ Step h (handles v ++ R) F h' (handles e ++ R)
+  | None => v_get t p = None /\ Step h (handles v ++ R) F h' R
+  end /\ (forall w tt, incl (handles w) (R ++ F) -> repr h w tt -> repr h' w tt).
+Proof.
+  induction p as [|pe rest IH]; intros h v t R F h' r I Hr E.
+  - simpl in E. inversion E; subst. split; auto. simpl. exists t. split; [auto|]. split; [auto|]. apply Step_refl; auto.
+  - simpl in E. destruct (m_get1 h v pe) as [h1 [e|]] eqn:E1.
+    + destruct (m_get1_ok h v t pe R F h1 (Some e) I Hr E1) as [[te [Hg [Hre S1]]] K1].
+      assert (I1 : Inv h1 ((handles e ++ R) ++ F)) by apply S1.
+      destruct (IH h1 e te R F h' r I1 Hre E) as [A K2].
+      split; [|intros; apply K2; auto].
+      simpl. rewrite Hg. destruct r as [e2|].
+      * destruct A as [te2 [Hg2 [Hre2 S2]]]. exists te2. split; [auto|]. split; [auto|]. eapply Step_trans; eauto.
+      * destruct A as [Hg2 S2]. split; auto. eapply Step_trans; eauto.
+    + destruct (m_get1_ok h v t pe R F h1 None I Hr E1) as [[Hg S1] K1]. inversion E; subst.
+      split; auto. simpl. rewrite Hg. auto.
+Qed.
+
+(* x[p] read from the content v of a variable (v itself stays where it is, among R) *)
+Lemma m_read_ok h v t p R F h' r :
+  Inv h (R ++ F) -> incl (handles v) (R ++ handles_heap h) -> repr h v t -> m_read h v p = (h', r) ->
+  match r with
+  | Some e => exists te, v_get t p = Some te /\ repr h' e te /\ Step h R F h' (handles e ++ R)
+  | None => v_get t p = None /\ Step h R F h' R
+  end /\ (forall w tt, incl (handles w) (R ++ F) -> repr h w tt -> repr h' w tt).
+Proof.
+  intros I Iv Hr E. unfold m_read in E.
+  destruct (clone_val_step h R F v I Iv) as [S1 [B1 L1]].
+  set (h1 := clone_val h v) in *.
+  assert (I1 : Inv h1 ((handles v ++ R) ++ F)) by apply S1.
+  assert (Hr1 : repr h1 v t) by (eapply repr_ext; eauto).
+  destruct (m_get_ok p h1 v t R F h' r I1 Hr1 E) as [A K].
+  split.
+  - destruct r as [e|].
+    + destruct A as [te [Hg [Hre S2]]]. exists te. split; [auto|]. split; [auto|]. eapply Step_trans; eauto.
+    + destruct A as [Hg S2]. split; auto. eapply Step_trans; eauto.
+  - intros w tt Iw Hw. apply K; auto. eapply repr_ext; eauto.
+Qed.
+
+(* ------------------------------------------------------------------ literals *)
+Section ValInd.
+  Variable P : val -> Prop.
+  Hypothesis Hnull : P VNull.
+  Hypothesis Hint : forall z, P (VInt z).
+  Definition optP (d : option val) : Prop := match d with Some t => P t | None => True end.
+  Hypothesis Hseq : forall k its d, Forall (fun kv => P (snd kv)) its -> optP d -> P (VSeq k its d).
+  Hypothesis Hinst : forall sid fs, Forall P fs -> P (VInst sid fs).
+  Fixpoint val_ind' (t : val) : P t :=
+    match t with
+    | VNull => Hnull
+    | VInt z => Hint z
+    | VSeq k its d =>
+      Hseq k its d
+        ((fix go (l : list (key * val)) : Forall (fun kv => P (snd kv)) l :=
+            match l with
+            | [] => Forall_nil _
+            | kv :: tl => Forall_cons kv (val_ind' (snd kv)) (go tl)
+            end) its)
+        (match d as d0 return optP d0 with
+         | Some t0 => val_ind' t0
+         | None => I
+         end)
+    | VInst sid fs =>
+      Hinst sid fs
+        ((fix go (l : list val) : Forall P l :=
+            match l with
+            | [] => Forall_nil _
+            | x :: tl => Forall_cons x (val_ind' x) (go tl)
+            end) fs)
+    end.
+End ValInd.
+
+Definition alloc_spec (t : val) : Prop :=
+  forall h R F h' v, Inv h (R ++ F) -> alloc_val h t = (h', v) ->
+  repr h' v t /\ Step h R F h' (handles v ++ R) /\ (forall m, same_body h h' m).
+
+Opaque alloc.
+Lemma alloc_val_ok t : alloc_spec t.
+Proof.
+  induction t using val_ind'; unfold alloc_spec; intros h R F h' v I E.
+  - simpl in E. inversion E; subst. rewrite handles_null. simpl.
+    split; [constructor | split; [apply Step_refl; auto | intro; apply same_body_refl]].
+  - simpl in E. inversion E; subst. rewrite handles_int. simpl.
+    split; [constructor | split; [apply Step_refl; auto | intro; apply same_body_refl]].
+  - simpl in E.
+    (* the items *)
+    assert (ITEMS : forall its0, Forall (fun kv => alloc_spec (snd kv)) its0 ->
+      forall h R F h1 es, Inv h (R ++ F) ->
+      (fix go (h : heap) (its : list (key * val)) {struct its} : heap * list (key * hval) :=
+         match its with
+         | [] => (h, [])
+         | (ky, t1) :: tl => let '(h', e) := alloc_val h t1 in let '(h'', es) := go h' tl in (h'', (ky, e) :: es)
+         end) h its0 = (h1, es) ->
+      repr_items h1 es its0 /\ Step h R F h1 (handles_items es ++ R) /\ (forall m, same_body h h1 m)).
+    { induction its0 as [|[ky t1] tl IHl]; intros Hall h0 R0 F0 h1 es I0 E0.
+      - inversion E0; subst. simpl.
+        split; [constructor | split; [apply Step_refl; auto | intro; apply same_body_refl]].
+      - inversion Hall; subst. simpl in H3.
+        destruct (alloc_val h0 t1) as [h0' e] eqn:E1.
+        destruct ((fix go (h : heap) (its : list (key * val)) {struct its} : heap * list (key * hval) :=
+                     match its with
+                     | [] => (h, [])
+                     | (ky, t1) :: tl => let '(h', e) := alloc_val h t1 in let '(h'', es) := go h' tl in (h'', (ky, e) :: es)
+                     end) h0' tl) as [h0'' es'] eqn:E2.
+        inversion E0; subst; clear E0.
+        destruct (H3 h0 R0 F0 h0' e I0 E1) as [Hre [S1 B1]].
+        assert (I1 : Inv h0' ((handles e ++ R0) ++ F0)) by apply S1.
+        destruct (IHl H4 h0' (handles e ++ R0) F0 h1 es' I1 E2) as [Hres [S2 B2]].
+        split; [|split].
+        + constructor; auto. eapply repr_ext; eauto.
+        + eapply Step_trans; [exact S1|]. eapply Step_equiv; [| |exact S2]. intro; tauto.
+          unfold handles_items. simpl. fold (handles_items es'). occ_tac.
+        + intro m. eapply same_body_trans; eauto. }
+    destruct ((fix go (h : heap) (its : list (key * val)) {struct its} : heap * list (key * hval) :=
+                 match its with
+                 | [] => (h, [])
+                 | (ky, t1) :: tl => let '(h', e) := alloc_val h t1 in let '(h'', es) := go h' tl in (h'', (ky, e) :: es)
+                 end) h its) as [h1 es] eqn:E1.
+    destruct (ITEMS its H h R F h1 es I E1) as [Hes [S1 B1]].
+    assert (I1 : Inv h1 ((handles_items es ++ R) ++ F)) by apply S1.
+    (* the default *)
+    assert (DFL : exists h2 dv, (match d with
+                                 | Some dt => let '(h', e) := alloc_val h1 dt in (h', Some e)
+                                 | None => (h1, None)
+                                 end) = (h2, dv) /\
+                  repr_opt h2 dv d /\ Step h1 (handles_items es ++ R) F h2 (handles_opt dv ++ handles_items es ++ R) /\
+                  (forall m, same_body h1 h2 m)).
+    { destruct d as [dt|].
+      - destruct (alloc_val h1 dt) as [h2 e] eqn:E2. exists h2, (Some e). split; auto.
+        destruct (H0 h1 (handles_items es ++ R) F h2 e I1 E2) as [Hre [S2 B2]].
+        split; [constructor; auto | split; auto].
+      - exists h1, None. split; auto.
+        split; [constructor | split; [simpl; apply Step_refl; auto | intro; apply same_body_refl]]. }
+    destruct DFL as [h2 [dv [E2 [Hdv [S2 B2]]]]]. rewrite E2 in E.
+    destruct (alloc h2 k es) as [h3 l] eqn:E3. inversion E; subst; clear E.
+    assert (I2 : Inv h2 ((handles_items es ++ handles_opt dv ++ R) ++ F)).
+    { eapply Inv_equiv; [|apply S2]. occ_tac. }
+    destruct (alloc_step' h2 (handles_opt dv ++ R) F k es h' l E3 I2) as [S3 B3].
+    split; [|split].
+    + Transparent alloc.
+      assert (Eh : h' = fst (alloc h2 k es)) by (rewrite E3; auto).
+      assert (El : l = length (cells h2)) by (unfold alloc in E3; inversion E3; auto).
+      Opaque alloc.
+      change k with (ckind (mkcell 1 k es)). apply R_ref.
+      * rewrite Eh, El. apply get_cell_alloc_new.
+      * simpl. eapply repr_items_ext; [exact B3|]. eapply repr_items_ext; eauto.
+      * eapply repr_opt_ext; eauto.
+    + rewrite handles_ref. eapply Step_trans; [exact S1|]. eapply Step_trans; [exact S2|].
+      eapply Step_equiv; [| |exact S3]. apply in_occ_equiv; occ_tac. occ_tac.
+    + intro m. eapply same_body_trans; [apply B1|]. eapply same_body_trans; [apply B2|]. apply B3.
+  - simpl in E.
+    assert (FIELDS : forall fs0, Forall alloc_spec fs0 ->
+      forall h R F h1 es, Inv h (R ++ F) ->
+      (fix go (h : heap) (fs : list val) {struct fs} : heap * list hval :=
+         match fs with
+         | [] => (h, [])
+         | t1 :: tl => let '(h', e) := alloc_val h t1 in let '(h'', es) := go h' tl in (h'', e :: es)
+         end) h fs0 = (h1, es) ->
+      repr_list h1 es fs0 /\ Step h R F h1 (handles_list es ++ R) /\ (forall m, same_body h h1 m)).
+    { induction fs0 as [|t1 tl IHl]; intros Hall h0 R0 F0 h1 es I0 E0.
+      - inversion E0; subst. simpl.
+        split; [constructor | split; [apply Step_refl; auto | intro; apply same_body_refl]].
+      - inversion Hall; subst.
+        destruct (alloc_val h0 t1) as [h0' e] eqn:E1.
+        destruct ((fix go (h : heap) (fs : list val) {struct fs} : heap * list hval :=
+                     match fs with
+                     | [] => (h, [])
+                     | t1 :: tl => let '(h', e) := alloc_val h t1 in let '(h'', es) := go h' tl in (h'', e :: es)
+                     end) h0' tl) as [h0'' es'] eqn:E2.
+        inversion E0; subst; clear E0.
+        destruct (H2 h0 R0 F0 h0' e I0 E1) as [Hre [S1 B1]].
+        assert (I1 : Inv h0' ((handles e ++ R0) ++ F0)) by apply S1.
+        destruct (IHl H3 h0' (handles e ++ R0) F0 h1 es' I1 E2) as [Hres [S2 B2]].
+        split; [|split].
+        + constructor; auto. eapply repr_ext; eauto.
+        + eapply Step_trans; [exact S1|]. eapply Step_equiv; [| |exact S2]. intro; tauto.
+          unfold handles_list. simpl. fold (handles_list es'). occ_tac.
+        + intro m. eapply same_body_trans; eauto. }
+    destruct ((fix go (h : heap) (fs : list val) {struct fs} : heap * list hval :=
+                 match fs with
+                 | [] => (h, [])
+                 | t1 :: tl => let '(h', e) := alloc_val h t1 in let '(h'', es) := go h' tl in (h'', e :: es)
+                 end) h fs) as [h1 es] eqn:E1.
+    inversion E; subst; clear E.
+    destruct (FIELDS fs H h R F h' es I E1) as [Hes [S1 B1]].
+    rewrite handles_inst. split; [constructor; auto | split; auto].
+Qed.
+Transparent alloc.
+
+(* ------------------------------------------------------------------ expressions *)
+Fixpoint evals (st : state) (es : list expr) : option (list val) :=
+  match es with
+  | [] => Some []
+  | e1 :: tl => match eval st e1 with
+                | Some v => match evals st tl with Some r => Some (v :: r) | None => None end
+                | None => None
+                end
+  end.
+
+Lemma eval_EList st es :
+  eval st (EList es) = match evals st es with Some vs => Some (VList vs) | None => None end.
+Proof.
+  simpl. assert (E : (fix go (l : list expr) : option (list val) :=
+             match l with
+             | [] => Some []
+             | e1 :: tl => match eval st e1 with
+                           | Some v => match go tl with Some r => Some (v :: r) | None => None end
+                           | None => None
+                           end
+             end) es = evals st es).
+  { induction es; simpl; auto. rewrite IHes. reflexivity. }
+  rewrite E. reflexivity.
+Qed.
+
+Fixpoint m_evals (rs : list hval) (h : heap) (l : list expr) : heap * option (list (key * hval)) :=
+  match l with
+  | [] => (h, Some [])
+  | e1 :: tl =>
+    match m_eval rs h e1 with
+    | (h1, Some v) =>
+      match m_evals rs h1 tl with
+      | (h2, Some r) => (h2, Some ((nokey, v) :: r))
+      | (h2, None) => (drop_val h2 v, None)
+      end
+    | (h1, None) => (h1, None)
+    end
+  end.
+
+Lemma m_eval_EList rs h es :
+  m_eval rs h (EList es) =
+  let '(h1, r) := m_evals rs h es in
+  match r with
+  | Some its => let '(h2, l) := alloc h1 KList its in (h2, Some (HRef l None))
+  | None => (h1, None)
+  end.
+Proof.
+  simpl. assert (E : forall h, (fix go (h : heap) (l : list expr) {struct l} : heap * option (list (key * hval)) :=
+         match l with
+         | [] => (h, Some [])
+         | e1 :: tl =>
+           match m_eval rs h e1 with
+           | (h1, Some v) =>
+             match go h1 tl with
+             | (h2, Some r) => (h2, Some ((nokey, v) :: r))
+             | (h2, None) => (drop_val h2 v, None)
+             end
+           | (h1, None) => (h1, None)
+           end
+         end) h es = m_evals rs h es).
+  { induction es; intro h0; simpl; auto. destruct (m_eval rs h0 a) as [h1 [v|]]; auto. rewrite IHes. reflexivity. }
+  rewrite E. reflexivity.
+Qed.
+
+(* the expression forms covered by the proof so far *)
+Fixpoint efrag (e : expr) : bool :=
+  match e with
+  | ELit _ | ERead _ _ | EGet _ => true
+  | EList es => (fix go (l : list expr) : bool := match l with [] => true | x :: tl => efrag x && go tl end) es
+  | EUpd _ _ _ | ECall _ _ => false
+  end.
+
+Definition eval_post (rs : list hval) (h : heap) (F : list loc) (st : state) (e : expr) (h' : heap) (r : option hval) : Prop :=
+  match r with
+  | Some w => exists tw, eval st e = Some tw /\ repr h' w tw /\
+                         Step h (handles_list rs) F h' (handles w ++ handles_list rs)
+  | None => eval st e = None /\ Step h (handles_list rs) F h' (handles_list rs)
+  end /\ (forall w t, incl (handles w) (handles_list rs ++ F) -> repr h w t -> repr h' w t).
+
+Section ExprInd.
+  Variable P : expr -> Prop.
+  Hypothesis Hlit : forall v, P (ELit v).
+  Hypothesis Hread : forall x p, P (ERead x p).
+  Hypothesis Hget : forall x, P (EGet x).
+  Hypothesis Hlist : forall es, Forall P es -> P (EList es).
+  Hypothesis Hupd : forall e k e2, P e -> P e2 -> P (EUpd e k e2).
+  Hypothesis Hcall : forall m e, P e -> P (ECall m e).
+  Fixpoint expr_ind' (e : expr) : P e :=
+    match e with
+    | ELit v => Hlit v
+    | ERead x p => Hread x p
+    | EGet x => Hget x
+    | EList es => Hlist es ((fix go (l : list expr) : Forall P l :=
+                               match l with
+                               | [] => Forall_nil _
+                               | x :: tl => Forall_cons x (expr_ind' x) (go tl)
+                               end) es)
+    | EUpd e k e2 => Hupd e k e2 (expr_ind' e) (expr_ind' e2)
+    | ECall m e => Hcall m e (expr_ind' e)
+    end.
+End ExprInd.
+
+Lemma m_eval_ok e : efrag e = true -> forall rs h F st h' r,
+  Inv h (handles_list rs ++ F) -> repr_list h rs st -> m_eval rs h e = (h', r) ->
+  eval_post rs h F st e h' r.
+Proof.
+  induction e using expr_ind'; intros FR rs h F st h' r I Hrs E; unfold eval_post.
+  - (* literal *)
+    simpl in E. destruct (alloc_val h v) as [h1 w] eqn:EA. inversion E; subst.
+    destruct (alloc_val_ok v h (handles_list rs) F h' w I EA) as [Hw [S B]].
+    split; [exists v; auto|]. intros; eapply repr_ext; eauto.
+  - (* x[p] *)
+    simpl in E. simpl. destruct (nth_error rs x) as [v|] eqn:Ex.
+    + destruct (repr_list_nth _ _ _ _ _ Hrs Ex) as [tv [Htv Hv]]. rewrite Htv.
+      apply (m_read_ok h v tv p (handles_list rs) F h' r I); auto.
+      apply incl_appl. eapply handles_list_nth; eauto.
+    + inversion E; subst. rewrite (repr_list_nth_none _ _ _ _ Hrs Ex).
+      split; auto. split; auto. apply Step_refl; auto.
+  - (* getter closure *)
+    simpl in E. simpl. destruct (nth_error rs x) as [v|] eqn:Ex.
+    + destruct (repr_list_nth _ _ _ _ _ Hrs Ex) as [tv [Htv Hv]]. rewrite Htv. inversion E; subst.
+      destruct (clone_val_step h (handles_list rs) F v I) as [S [B L]].
+      { apply incl_appl. eapply handles_list_nth; eauto. }
+      split; [|intros; eapply repr_ext; eauto].
+      exists tv. split; auto. split; auto. eapply repr_ext; eauto.
+    + inversion E; subst. rewrite (repr_list_nth_none _ _ _ _ Hrs Ex).
+      split; auto. split; auto. apply Step_refl; auto.
+  - (* [e1, ..., en] *)
+    rewrite m_eval_EList in E. rewrite eval_EList.
+    assert (LIST : forall es0, Forall (fun e => efrag e = true -> forall rs h F st h' r,
+                     Inv h (handles_list rs ++ F) -> repr_list h rs st -> m_eval rs h e = (h', r) ->
+                     eval_post rs h F st e h' r) es0 ->
+                   (fix go (l : list expr) : bool := match l with [] => true | x :: tl => efrag x && go tl end) es0 = true ->
+                   forall h F h1 r1, Inv h (handles_list rs ++ F) -> repr_list h rs st -> m_evals rs h es0 = (h1, r1) ->
+                   match r1 with
+                   | Some its => exists ts, evals st es0 = Some ts /\ repr_items h1 its (unlabelled ts) /\
+                                            Step h (handles_list rs) F h1 (handles_items its ++ handles_list rs)
+                   | None => evals st es0 = None /\ Step h (handles_list rs) F h1 (handles_list rs)
+                   end /\ (forall w t, incl (handles w) (handles_list rs ++ F) -> repr h w t -> repr h1 w t)).
+    { induction es0 as [|e1 tl IHl]; intros Hall Hfr h0 F0 h1 r1 I0 Hrs0 E0.
+      - simpl in E0. inversion E0; subst. split; auto. exists []. split; auto. split; [constructor|].
+        simpl. apply Step_refl; auto.
+      - inversion Hall; subst. apply andb_prop in Hfr. destruct Hfr as [Hf1 Hf2].
+        simpl in E0. destruct (m_eval rs h0 e1) as [h2 [v|]] eqn:E1.
+        + destruct (H2 Hf1 rs h0 F0 st h2 (Some v) I0 Hrs0 E1) as [[tv [Ev [Hv S1]]] K1].
+          assert (Hrs2 : repr_list h2 rs st).
+          { assert (Hx : repr h2 (HInst 0 rs) (VInst 0 st)).
+            { apply K1. rewrite handles_inst. apply incl_appl, incl_refl. constructor; auto. }
+            inversion Hx; auto. }
+          assert (I2 : Inv h2 (handles_list rs ++ handles v ++ F0)).
+          { eapply Inv_equiv; [|apply S1]. occ_tac. }
+          destruct (m_evals rs h2 tl) as [h3 [rr|]] eqn:E2.
+          * destruct (IHl H3 Hf2 h2 (handles v ++ F0) h3 (Some rr) I2 Hrs2 E2) as [[ts [Evs [Hr S2]]] K2].
+            inversion E0; subst; clear E0. split.
+            -- exists (tv :: ts). simpl. rewrite Ev, Evs. split; auto. split.
+               ++ constructor; auto. apply K2; auto. apply incl_appr, incl_appl, incl_refl.
+               ++ apply Step_frame in S2. eapply Step_trans; [|eapply Step_equiv; [| |exact S2]].
+                  ** eapply Step_equiv; [| |exact S1]. intro; tauto. intro; reflexivity.
+                  ** apply in_occ_equiv. occ_tac.
+                  ** unfold handles_items. simpl. fold (handles_items rr). occ_tac.
+            -- intros w t Iw Hw. apply K2. { intros x Hx. apply Iw in Hx. revert Hx. in_tac. } apply K1; auto.
+          * destruct (IHl H3 Hf2 h2 (handles v ++ F0) h3 None I2 Hrs2 E2) as [[Evs S2] K2].
+            inversion E0; subst; clear E0.
+            assert (I3 : Inv h3 ((handles v ++ handles_list rs) ++ F0)).
+            { eapply Inv_equiv; [|apply S2]. occ_tac. }
+            destruct (drop_val_keep h3 v (handles_list rs) F0 I3) as [S3 K3].
+            split.
+            -- simpl. rewrite Ev, Evs. split; auto.
+               apply Step_frame in S2.
+               eapply Step_trans; [exact S1|]. eapply Step_trans; [|exact S3].
+               eapply Step_equiv; [| |exact S2]. apply in_occ_equiv; occ_tac. occ_tac.
+            -- intros w t Iw Hw. apply K3; auto. apply K2. { intros x Hx. apply Iw in Hx. revert Hx. in_tac. } apply K1; auto.
+        + destruct (H2 Hf1 rs h0 F0 st h2 None I0 Hrs0 E1) as [[Ev S1] K1].
+          inversion E0; subst; clear E0. split; auto. simpl. rewrite Ev. auto. }
+    simpl in FR.
+    destruct (m_evals rs h es) as [h1 [its|]] eqn:E1.
+    + destruct (LIST es H FR h F h1 (Some its) I Hrs E1) as [[ts [Evs [Hits S1]]] K1].
+      destruct (alloc h1 KList its) as [h2 l] eqn:EA. inversion E; subst; clear E.
+      assert (I1 : Inv h1 ((handles_items its ++ handles_list rs) ++ F)) by apply S1.
+      destruct (alloc_step' h1 (handles_list rs) F KList its h' l EA I1) as [S2 B2].
+      rewrite Evs. split.
+      * exists (VList ts). split; auto. split.
+        -- unfold VList. eapply alloc_repr; eauto.
+        -- rewrite handles_ref. simpl. eapply Step_trans; eauto.
+      * intros w t Iw Hw. eapply repr_ext; [exact B2|]. apply K1; auto.
+    + destruct (LIST es H FR h F h1 None I Hrs E1) as [[Evs S1] K1].
+      inversion E; subst; clear E. rewrite Evs. split; auto.
+  - simpl in FR. discriminate.
+  - simpl in FR. discriminate.
+Qed.
+
+(* ------------------------------------------------------------------ statements *)
+Definition StInv (st : mstate) : Prop := Inv (mheap st) (handles_list (roots st)).
+Definition Sim (st : mstate) (sg : state) : Prop := repr_list (mheap st) (roots st) sg.
+
+Lemma repr_list_as_inst h rs sg : repr_list h rs sg <-> repr h (HInst 0 rs) (VInst 0 sg).
+Proof. split; intro H; [constructor; auto | inversion H; auto]. Qed.
+
+(* take the content of variable x out of the roots: the rest of the roots is the frame *)
+Lemma roots_split x rs cur :
+  nth_error rs x = Some cur ->
+  forall l, occ l (handles_list rs) = occ l (handles cur) + occ l (handles_list (set_root rs x HNull)).
+Proof.
+  intros Hx l. pose proof (occ_list_set_field l rs x HNull cur Hx). rewrite handles_null in H.
+  unfold set_root. revert H. occ_tac.
+Qed.
+
+Lemma roots_put x rs cur cur' :
+  nth_error rs x = Some cur ->
+  forall l, occ l (handles_list (set_root rs x cur')) = occ l (handles cur') + occ l (handles_list (set_root rs x HNull)).
+Proof.
+  intros Hx l. pose proof (occ_list_set_field l rs x HNull cur Hx). pose proof (occ_list_set_field l rs x cur' cur Hx).
+  rewrite handles_null in H. unfold set_root. revert H H0. occ_tac.
+Qed.
+
+Lemma m_assign_to_ok h rs sg every x p w tw st' ok :
+  noslice p = true ->
+  Inv h (handles w ++ handles_list rs) -> repr_list h rs sg -> repr h w tw ->
+  m_assign_to (mkst h rs) every x p w = (st', ok) ->
+  exists sg', assign_to sg every x p tw = (sg', ok) /\ StInv st' /\ Sim st' sg'.
+Proof.
+  intros NS I Hrs Hw E. unfold m_assign_to in E. simpl in E. unfold assign_to.
+  destruct (nth_error rs x) as [cur|] eqn:Ex.
+  - destruct (repr_list_nth _ _ _ _ _ Hrs Ex) as [tcur [Htc Hcur]]. rewrite Htc.
+    destruct (m_set every p (Some w) h cur) as [[h1 cur'] ok1] eqn:ES. inversion E; subst; clear E.
+    set (others := handles_list (set_root rs x HNull)).
+    assert (I0 : Inv h ((handles cur ++ handles_opt (Some w)) ++ others)).
+    { eapply Inv_equiv; [|exact I]. intro l. pose proof (roots_split x rs cur Ex l). simpl. fold others in H. revert H. occ_tac. }
+    destruct (m_set_ok every p NS (Some w) (Some tw) h cur tcur others h1 cur' ok I0 Hcur (RO_some _ _ _ Hw) ES)
+      as [t' [Ev [Hr' S]]].
+    rewrite Ev. eexists; split; [reflexivity|]. split.
+    + unfold StInv. simpl. eapply Inv_equiv; [|apply (st_inv _ _ _ _ _ S)].
+      intro l. pose proof (roots_put x rs cur cur' Ex l). fold others in H. revert H. occ_tac.
+    + unfold Sim. simpl.
+      assert (Ho : repr h (HInst 0 (set_root rs x HNull)) (VInst 0 (set_field x VNull sg))).
+      { constructor. apply repr_list_set_field; auto. constructor. }
+      apply (st_frame _ _ _ _ _ S) in Ho; [|rewrite handles_inst; apply incl_refl].
+      inversion Ho; subst.
+      match goal with H : repr_list h1 _ _ |- _ => pose proof (repr_list_set_field _ _ _ x _ _ H Hr') as Hx end.
+      unfold set_root in Hx. rewrite hset_field_twice, set_field_twice in Hx. exact Hx.
+  - inversion E; subst; clear E. rewrite (repr_list_nth_none _ _ _ _ Hrs Ex).
+    destruct (drop_val_keep h w (handles_list rs) [] ) as [S K].
+    { rewrite app_nil_r. auto. }
+    eexists; split; [reflexivity|]. split.
+    + unfold StInv. simpl. pose proof (st_inv _ _ _ _ _ S) as I1. rewrite app_nil_r in I1. auto.
+    + unfold Sim. simpl. apply repr_list_as_inst. apply K.
+      * rewrite handles_inst, app_nil_r. apply incl_refl.
+      * apply repr_list_as_inst. auto.
+Qed.
+
+Definition sfrag (s : sstmt) : bool :=
+  match s with
+  | SAssign x p e => noslice p && efrag e
+  | _ => false
+  end.
+
+Lemma m_exec_s_ok s : sfrag s = true -> forall st sg st' ok,
+  StInv st -> Sim st sg -> m_exec_s st s = (st', ok) ->
+  exists sg', exec_s sg s = (sg', ok) /\ StInv st' /\ Sim st' sg'.
+Proof.
+  intros FR st sg st' ok I Hs E. destruct st as [h rs]. unfold StInv, Sim in *. simpl in I, Hs.
+  destruct s; simpl in FR; try discriminate.
+  - (* x[p] = e *)
+    apply andb_prop in FR. destruct FR as [NS FE].
+    simpl in E. simpl.
+    assert (I0 : Inv h (handles_list rs ++ [])) by (rewrite app_nil_r; auto).
+    destruct (m_eval rs h e) as [h1 [w|]] eqn:EE.
+    + destruct (m_eval_ok e FE rs h [] sg h1 (Some w) I0 Hs EE) as [[tw [Ev [Hw S]]] K].
+      rewrite Ev.
+      assert (Hrs1 : repr_list h1 rs sg).
+      { apply repr_list_as_inst. apply K. rewrite handles_inst. apply incl_appl, incl_refl. apply repr_list_as_inst; auto. }
+      assert (I1 : Inv h1 (handles w ++ handles_list rs)).
+      { pose proof (st_inv _ _ _ _ _ S) as I1. rewrite app_nil_r in I1. auto. }
+      eapply m_assign_to_ok; eauto.
+    + destruct (m_eval_ok e FE rs h [] sg h1 None I0 Hs EE) as [[Ev S] K].
+      rewrite Ev. inversion E; subst; clear E. eexists; split; [reflexivity|]. split.
+      * unfold StInv. simpl. pose proof (st_inv _ _ _ _ _ S) as I1. rewrite app_nil_r in I1. auto.
+      * unfold Sim. simpl. apply repr_list_as_inst. apply K.
+        rewrite handles_inst. apply incl_appl, incl_refl. apply repr_list_as_inst; auto.
+Qed.
+
+Definition frag (s : stmt) : bool := match s with Simple s => sfrag s | SFor _ _ _ => false end.
+
+Lemma m_exec_ok s : frag s = true -> forall st sg st' ok,
+  StInv st -> Sim st sg -> m_exec st s = (st', ok) ->
+  exists sg', exec sg s = (sg', ok) /\ StInv st' /\ Sim st' sg'.
+Proof. destruct s; simpl; intros FR; [apply m_exec_s_ok; auto | discriminate]. Qed.
+
+(* the trace of the machine and the trace of the value semantics agree, statement by statement *)
+Inductive traces_agree : list (mstate * bool) -> list (state * bool) -> Prop :=
+| TA_nil : traces_agree [] []
+| TA_cons st ok sg tl tl' : StInv st -> Sim st sg -> traces_agree tl tl' ->
+                            traces_agree ((st, ok) :: tl) ((sg, ok) :: tl').
+
+Lemma run_refines ops : forallb frag ops = true -> forall st sg,
+  StInv st -> Sim st sg -> traces_agree (run_cow st ops) (run_value sg ops).
+Proof.
+  induction ops as [|s ops IH]; intros FR st sg I Hs; simpl.
+  - constructor.
+  - simpl in FR. apply andb_prop in FR. destruct FR as [F1 F2].
+    destruct (m_exec st s) as [st1 ok] eqn:E.
+    destruct (m_exec_ok s F1 st sg st1 ok I Hs E) as [sg1 [Ev [I1 Hs1]]].
+    rewrite Ev. simpl. constructor; auto.
+Qed.
+
+Lemma init_ok n : StInv (init_state n) /\ Sim (init_state n) (repeat VNull n).
+Proof.
+  unfold StInv, Sim, init_state. simpl. split.
+  - intro l. unfold cnt_of, get_cell, empty_heap, handles_heap. simpl.
+    assert (handles_list (repeat HNull n) = []) by (induction n; simpl; auto).
+    rewrite H. destruct l; reflexivity.
+  - induction n; simpl; constructor; auto. constructor.
+Qed.
